@@ -75,7 +75,9 @@ def parseH (toks : List String) : Option H :=
            hasPeak := natOf toks "peak" != 0
            logLen := natOf toks "loglen"
            metaEpoch := 0
-           fileEpoch := 0 }
+           fileEpoch := 0
+           -- route of the handle: `virtual=0` for the path / descriptor / pipe handles of the grid (default: sf_open_virtual)
+           virtualIo := natOf toks "virtual" 1 != 0 }
   | none => none
 
 /-- the harness's block fills -/
